@@ -479,9 +479,11 @@ def run(ctx):
     # ------------------------------------------------------------------ oracle 5: after a `!` (trigger) every accepted operator is offered,
     # whatever follows the cursor (fixed contexts + every `!` of the generated workspaces)
     bang_ctx = []
-    for text in ("!", "!foo", "!size(xs)", "!n", "class A { int a = !n; }", "defvar v = !add(1, 2);", "class A { int a = !; }", "def d : B<!lt(1, 2)>;"):
-        for o in range(len(text)):
-            if text[o] == "!":
+    for text in ("!", "!foo", "!size(xs)", "!n", "class A { int a = !n; }", "defvar v = !add(1, 2);", "class A { int a = !; }", "def d : B<!lt(1, 2)>;",
+                 "// caf\u00e9\n!", "class A { string s = \"\u65e5\u672c\"; int a = !n; }", "/* \U0001F600 */ defvar v = !add(1, 2);", "// \u00e9\ndef d : B<!lt(1, 2)>;"):
+        tbytes = text.encode()
+        for o in range(len(tbytes)):
+            if tbytes[o] == 0x21:
                 bang_ctx.append(({"files": [["root.td", text]], "root": "root.td", "offsets": [["root.td", o + 1]], "hint_ranges": [], "completion": True}, "root.td", o + 1))
     rb = idedump(bindir, [w for w, _, _ in bang_ctx])
     after_bang = [(w, p, o, comp_at(r, p, o)[1]) for (w, p, o), r in zip(bang_ctx, rb) if "panic" not in r]
